@@ -6,6 +6,7 @@ import (
 	"reflect"
 	"sort"
 	"strings"
+	"sync"
 
 	"github.com/hattya/go.sh/ast"
 	"github.com/hattya/go.sh/interp"
@@ -23,8 +24,15 @@ type c13Case struct {
 }
 
 func c13Env(cs *refexp.Case) *interp.ExecEnv {
-	env := interp.NewExecEnv("sh", cs.Args...)
+	name0 := "sh"
+	if cs.EmptyN0 {
+		name0 = ""
+	}
+	env := interp.NewExecEnv(name0, cs.Args...)
 	env.Opts = interp.NoGlob
+	if cs.Glob {
+		env.Opts = 0
+	}
 	if cs.NoUnset {
 		env.Opts |= interp.NoUnset
 	}
@@ -45,14 +53,24 @@ func c13Env(cs *refexp.Case) *interp.ExecEnv {
 
 func c13Fill(cs *refexp.Case) {
 	cs.Name0 = "sh"
+	if cs.EmptyN0 {
+		cs.Name0 = ""
+	}
 	cs.Pid = os.Getpid()
 	cs.Opts = "f"
+	if cs.Glob {
+		cs.Opts = ""
+	}
 	if cs.NoUnset {
-		cs.Opts = "fu"
+		cs.Opts += "u"
 	}
 }
 
+var c13DirOnce sync.Once
+
 func c13Exec(c *core.Ctx, cs c13Case) {
+	// an empty working directory: with the f option off no pattern matches anything
+	c13DirOnce.Do(func() { os.Chdir(c.ScratchDir("c13-empty")) })
 	c13Fill(&cs.Case)
 	src := "x " + cs.Source()
 	key := fmt.Sprintf("%s | v=%s args=%q nounset=%v ifs=%s o=%q", src, c13Val(&cs.Case), cs.Args, cs.NoUnset, c13IFS(&cs.Case), cs.Other)
